@@ -361,6 +361,27 @@ func (e *pExec) step(line string) (out string) {
 			if also != "" {
 				e.find(also, "panic", op, fmt.Sprint(r))
 			}
+			// C13: a parser that was reset panics where a new parser given the same calls does not
+			if e.twin != nil && (op == "parse" || op == "parsenil") {
+				twinPanics := false
+				func() {
+					defer func() {
+						if recover() != nil {
+							twinPanics = true
+						}
+					}()
+					if op == "parse" {
+						fl, _ := strconv.Atoi(strings.Fields(line)[1])
+						e.twin.Parse(&e.twinBlk, fl)
+					} else {
+						e.twin.Parse(nil, 0)
+					}
+				}()
+				if !twinPanics {
+					e.find("C13", "parser after Reset behaves differently from a new parser", op,
+						"the reset parser panics, a new parser given the same calls does not: "+fmt.Sprint(r))
+				}
+			}
 		}
 	}()
 	ws := strings.Fields(line)
